@@ -1,12 +1,13 @@
 """C16 — the preschedule is a faithful structural summary of the job DAG (structural clauses only)."""
 from __future__ import annotations
 
+import ast
 import itertools
 
 from ..interp import Interp
 from ..lib import is_call, loc
 from ..stmts import _ConcreteIter
-from ..terms import Atom, ModelFn, Obj, vkey
+from ..terms import App, Atom, ModelFn, Obj, vkey
 from .common import dsid
 
 GR = "cascade.scheduler.graph"
@@ -264,6 +265,81 @@ def r4_ncd_fallback(ctx):
 
 
 RULES.append(r4_ncd_fallback)
+
+
+def r4b_ncd_compiled_path(ctx):
+    """C16.R4b: the branch that hands the computation to the optional compiled library (`coptrs`) is a *wrapper*: it renumbers the tasks,
+    passes a pair-keyed matrix and the depth, and translates the answer back.  The library is not part of this repository; it is modelled
+    by its contract — the same definition as the fallback, over the indices it is given — and the obligation is sibling agreement: on
+    every DAG over four tasks the wrapper's table equals the definition (and therefore the fallback's, R4).  This decides the renumbering
+    and the translation, not the library."""
+    repo = ctx.repo
+    fi = repo.func(f"{GR}.nearest_common_descendant")
+    ctx.analysed(fi.qual)
+    import collections
+    uses_lib = any(isinstance(n, (ast.Import, ast.ImportFrom)) and any(a.name.split(".")[0] == "coptrs" for a in n.names) for n in ast.walk(fi.node))
+    if not uses_lib:
+        ctx.ok("C16.R4b", loc(fi), "no optional compiled branch in nearest_common_descendant (nothing to agree with)")
+        return
+
+    def lib(run, args, kwargs, node, fr):
+        m, L = (list(args) + [kwargs.get("L")])[:2] if len(args) < 2 else args[:2]
+        if not isinstance(m, dict) or not isinstance(L, int) or not all(isinstance(k, tuple) and len(k) == 2 and all(isinstance(i, int) for i in k) for k in m):
+            return App("coptrs.nearest_common_descendant", args, kwargs, uid=run.fresh())
+        idx = sorted({i for k in m for i in k})
+        out = {}
+        for i in idx:
+            for j in idx:
+                if i == j:
+                    out[(i, j)] = 0
+                    continue
+                cands = [max(m[(i, c)], m[(j, c)]) for c in idx if (i, c) in m and (j, c) in m]
+                out[(i, j)] = min(cands + [L])
+        return out
+
+    nodes = ["a", "b", "c", "d"]
+    pairs = [(x, y) for i_, x in enumerate(nodes) for y in nodes[i_ + 1:]]
+    n = bad = undecided = 0
+    for mask in range(1 << len(pairs)):
+        edges = [pr for k, pr in enumerate(pairs) if mask >> k & 1]
+        INF = 99
+        d = {x: {y: (0 if x == y else INF) for y in nodes} for x in nodes}
+        for x, y in edges:
+            d[x][y] = 1
+        for m_ in nodes:
+            for x in nodes:
+                for y in nodes:
+                    d[x][y] = min(d[x][y], d[x][m_] + d[m_][y])
+        longest = {x: 0 for x in nodes}
+        for x in reversed(nodes):
+            longest[x] = max([1 + longest[y] for (x2, y) in edges if x2 == x] + [0])
+        L = max(longest.values()) + 1
+        want = {a: {b: (0 if a == b else min([max(d[a][c], d[b][c]) for c in nodes if d[a][c] < INF and d[b][c] < INF] + [L])) for b in nodes} for a in nodes}
+        paths_arg = {x: collections.defaultdict((lambda _L=L: _L), {y: v for y, v in d[x].items() if v < INF}) for x in nodes}
+        ps = [p for p in Interp(repo, max_concrete_iter=80, call_models={"coptrs.nearest_common_descendant": lib}).explore(
+                  fi, args={"paths": paths_arg, "nodes": list(nodes), "L": L})
+              if not any(dd.key.startswith("import_fails") and dd.value for dd in p.decisions)]
+        ctx.evals(len(ps))
+        n += 1
+        if len(ps) != 1 or ps[0].exit[0] != "return" or not isinstance(ps[0].exit[1], dict):
+            undecided += 1
+            continue
+        got = {a: dict(r) if isinstance(r, dict) else {} for a, r in ps[0].exit[1].items()}
+        diff = [(a, b, got.get(a, {}).get(b), want[a][b]) for a in nodes for b in nodes if got.get(a, {}).get(b) != want[a][b]]
+        if diff:
+            bad += 1
+            ctx.violation("C16.R4b", fi.qual, loc(fi), "compiled branch agrees with the definition",
+                          f"DAG with edges {edges} (depth {L}): with the library computing the definition over the indices it is given, the wrapper "
+                          f"returns distance({diff[0][0]}, {diff[0][1]}) = {diff[0][2]}, the definition gives {diff[0][3]}")
+            break
+    if undecided:
+        ctx.undecided("C16.R4b", loc(fi), f"{undecided} of {n} DAGs: the compiled branch is not a single completed path")
+    elif not bad:
+        ctx.ok("C16.R4b", loc(fi), f"compiled-branch wrapper == definition on the path matrices of all {n} DAGs over four tasks (library modelled by its contract)")
+    ctx.floor("C16.R4b.dags", n, 64)
+
+
+RULES.append(r4b_ncd_compiled_path)
 
 
 def r5_enrich_small_scope(ctx):
